@@ -179,6 +179,23 @@ def run(ctx):
         res.add(Finding('C18', 'C18.d', 'R-PROV', pm.file, pm.qualname, pm.node.lineno, 'duration store',
                         'the duration entry is not the duration parameter computed by the scope'))
 
+    # timestamp: read from the UTC clock in the metadata step
+    K_AT = const_of(roles, 'RECORDED_AT')
+    ts = [n for n in walk_own(pm.node) if isinstance(n, ast.Assign) and isinstance(n.targets[0], ast.Subscript) and
+          ((isinstance(n.targets[0].slice, ast.Attribute) and n.targets[0].slice.attr == 'RECORDED_AT') or
+           (isinstance(n.targets[0].slice, ast.Constant) and n.targets[0].slice.value == K_AT))]
+    okt = False
+    whyt = 'no RECORDED_AT entry written by the metadata step'
+    if ts:
+        calls = [norm(c.func) for c in ast.walk(ts[0].value) if isinstance(c, ast.Call)]
+        utc = any(c.endswith('utcnow') for c in calls) or any(c.endswith('.now') and 'utc' in norm(ts[0].value).lower() for c in calls)
+        okt = utc
+        whyt = norm(ts[0].value)
+    cd.instance('recording timestamp read from the UTC clock', pm.qualname, okt, detail=whyt)
+    if not okt:
+        res.add(Finding('C18', 'C18.d', 'R-PROV', pm.file, pm.qualname, ts[0].lineno if ts else pm.node.lineno, whyt,
+                        'the recording timestamp is not read from the UTC clock (`%s`): in a process whose local zone is not UTC it is off by the zone offset' % whyt))
+
     # ---- C18.e extractor containment and atomic merge
     ok, why = extractor_merge(pm)
     ce.instance('extractor call inside try/except Exception, result consumed by exactly one update in that try', pm.qualname, ok, detail=why)
@@ -241,6 +258,25 @@ def duration_shape(roles, K_DUR):
                 inside_body = any(x is n for b in t.body for x in ast.walk(b))
                 if inside_body:
                     return False, 'the second clock read happens inside the try body (before the operation ends)'
+                # the value handed to the metadata step is that difference (or its total_seconds()), not a component of it
+                diff_name = n.targets[0].id if isinstance(n.targets[0], ast.Name) else None
+                pm = roles.post_metadata
+                calls = [c for c in ast.walk(fn) if isinstance(c, ast.Call) and isinstance(c.func, ast.Attribute) and c.func.attr == pm.name]
+                for c in calls:
+                    dur = c.args[-1] if c.args else None
+                    for k in c.keywords:
+                        if k.arg == pm.params[-1]:
+                            dur = k.value
+                    e = dur
+                    if isinstance(e, ast.Name) and e.id != diff_name:
+                        ds = [a.value for a in ast.walk(fn) if isinstance(a, ast.Assign) and isinstance(a.targets[0], ast.Name) and a.targets[0].id == e.id]
+                        e = ds[0] if len(ds) == 1 else e
+                    ok_whole = (isinstance(e, ast.Name) and e.id == diff_name) or \
+                        (isinstance(e, ast.Call) and isinstance(e.func, ast.Attribute) and e.func.attr == 'total_seconds' and
+                         isinstance(e.func.value, ast.Name) and e.func.value.id == diff_name)
+                    if not ok_whole:
+                        return False, 'the duration handed to the metadata step is `%s`, a component of the clock difference `%s` rather than the ' \
+                                      'difference itself (whole seconds / days are dropped)' % (norm(e), norm(n.value))
                 return True, '%s: second read of %s() minus `%s` read before the try' % (norm(n), norm(l.func), r.id)
     raise AnalysisError('duration computation has a shape the rule does not model (expected `clock() - start` in the scope with '
                         '`start = clock()` before the try)')
